@@ -105,10 +105,11 @@ def driverFuns : Funs := fun f pos kw =>
     | [.int _] => [.int 1]
     | _ => [.undef]
   else if f = "<func>rhs" then
-    -- the right-hand side of the Fortran family: -2 * y
+    -- the right-hand side of the Fortran family: -2 * y + t (it must depend on BOTH arguments: a stale
+    -- time argument has to be visible)
     match bindArgs ["t", "y"] pos kw with
-    | [_, .arr l] => [.arr (l.map (Option.map (fun x => -2 * x)))]
-    | [_, .int x] => [.int (-2 * x)]
+    | [.int t, .arr l] => [.arr (l.map (Option.map (fun x => -2 * x + t)))]
+    | [.int t, .int x] => [.int (-2 * x + t)]
     | _ => [.undef]
   else if f = "<builtin>elementwise_abs" then
     match bindArgs ["x"] pos kw with
